@@ -166,13 +166,15 @@ class _DatasetFillerContext:
             current_progress.shard = self._get_new_shard(split=split)
             current_progress.written_examples = 0
 
-        # Update custom_metadata is needed
-        if custom_metadata:
-            current_progress.shard.shard_info.custom_metadata = custom_metadata
-
         # Write the current example and update counters.
         current_progress.shard.write(values=values)
         current_progress.written_examples += 1
+
+        # Update custom_metadata if needed. Only after the example has been
+        # written so that a rejected example does not label (or later force
+        # closing of) a shard it is not part of.
+        if custom_metadata:
+            current_progress.shard.shard_info.custom_metadata = custom_metadata
 
         # We have updated the current progress.
         assert self._current_shards_progress[split] == current_progress
